@@ -23,14 +23,15 @@ DRIVER = "Driver/C07.lean"
 OBLIGATIONS = ["NiftyVerif.C07." + t for t in (
     "inv_init", "inv_construct", "inv_step", "inv_run", "field_constant_step", "field_constant",
     "field_constant_from_start", "ops_step", "ops_from_field_constant",
-    "asFound_violates", "asFound_base_escapes", "prior_view_escapes", "reenabled_flag_escapes")]
+    "asFound_violates", "asFound_base_escapes", "prior_view_escapes", "reenabled_flag_escapes",
+    "asarray_exact_identity", "asarray_subclass_view", "asarray_view_escapes")]
 RULE = ("histories of Heap.Op operations (every public Field constructor path x every write path: source array, "
         "views, .val/.raw/.asnumpy() handles, __setitem__, in-place ops, out= ufuncs, flags) generated while running "
         "the real code; length <= 12 quick / <= 40 thorough, 2-3+ fields; plus the full constructor x attack matrix; "
         "non-trivial = at least one field exists and at least one write/in-place/out=/flag operation follows its "
         "construction; distinct by the canonical op list")
 TRUSTED_BASE = ["Lean 4.33 kernel; axioms propext/Classical.choice/Quot.sound only (audited every run)",
-                "Model/Heap.lean is hand-written (effect records for 28 operations of any_array.py/field.py/sugar.py/"
+                "Model/Heap.lean is hand-written (effect records for 31 operations of any_array.py/field.py/sugar.py/"
                 "diagonal_operator.py/adder.py); tied by per-step differential comparison of values, flags, identities, "
                 "error kinds on generated histories",
                 "NumPy's own flag semantics (views inherit the flag at creation; a read-only ndarray rejects item "
@@ -43,7 +44,8 @@ ASSUMPTIONS = ["1-D float64 arrays holding small integers (class E)",
                "in the alphabet"]
 
 WRITE_OPS = {"writeArr", "wrapSetitem", "wrapIadd", "ufuncOut", "setFlag"}
-# Heap.Op also has `arrBase` (`a.base`): navigation from any ndarray handle to the array it is a view of
+# Heap.Op also has `arrBase` (`a.base`): navigation from any ndarray handle to the array it is a view of,
+# `newSub` (sent as newArr with how >= 2: an owning ndarray-subclass instance) and `asArray` (np.asarray(a))
 
 
 def _dom(n, ndim=1):
@@ -77,12 +79,39 @@ class BadHandle(Exception):
     pass
 
 
+class UserArray(np.ndarray):
+    """a trivial user subclass of ndarray (like np.memmap / np.matrix / astropy Quantity sources)"""
+    pass
+
+
+def _source_array(vals, how):
+    """the source array kinds a caller may hand to a constructor: exact ndarray, 0-d, an owning ndarray subclass, a memmap"""
+    if how == 1 and len(vals) == 1:
+        return np.array(float(vals[0]))
+    if how == 2:
+        a = np.ndarray.__new__(UserArray, shape=(len(vals),), dtype=np.float64)     # owns its data
+        a[:] = vals
+        return a
+    if how == 3:
+        import tempfile
+        a = np.memmap(tempfile.TemporaryFile(), dtype=np.float64, mode="w+", shape=(max(len(vals), 1),))
+        a[:len(vals)] = vals
+        return a if len(vals) else a[:0]
+    return np.array(vals, dtype=np.float64)
+
+
+def _plain(a):
+    return type(a) is np.ndarray
+
+
 class Real:
     """executes Heap.Op operations on the real nifty.cl objects, mirroring the model's object numbering"""
 
     def __init__(self):
         self.arrs, self.wraps, self.fields, self.ops = [], [], [], []
         self.guard_ok = True          # all guards so far held (evaluated on the real objects)
+        self.subclass_seen = False    # the history contains an ndarray-subclass source (user subclass, memmap)
+        self.sub_sources = set()      # handles of the subclass source arrays (class tag exact=false in the model)
         self.birth = []               # bytes of every field at construction
         self.opbirth = []             # action of every operator at construction
         self.created_by = []          # op name that created each field
@@ -130,10 +159,10 @@ class Real:
         ret = None
         A, W, F = self.arrs, self.wraps, self.fields
         if k == "newArr":
-            if how == 1 and len(op["vals"]) == 1:
-                A.append(np.array(float(op["vals"][0])))        # a 0-d ndarray
-            else:
-                A.append(np.array(op["vals"], dtype=np.float64))
+            A.append(_source_array(op["vals"], how))
+            if not _plain(A[-1]):
+                self.subclass_seen = True
+                self.sub_sources.add(len(A) - 1)
             ret = ["arr", len(A) - 1]
         elif k == "sliceArr":
             a = self._get(A, op["a"])
@@ -159,9 +188,22 @@ class Real:
                 a[()] = float(op["v"])
             else:
                 a[op["i"]] = float(op["v"])
+        elif k == "asArray":
+            a = self._get(A, op["a"])
+            b = np.asarray(a)                 # what the library (and callers) do to "make sure it is an array"
+            i = self._idx(A, b)
+            if i < 0:
+                A.append(b)
+                i = len(A) - 1
+            ret = ["arr", i]
         elif k == "arrBase":
             b = self._get(A, op["a"]).base
-            ret = None if b is None else ["arr", self._idx(A, b)]
+            # a non-ndarray base (the mmap object behind a memmap) is a buffer owner, not an array handle
+            ret = None if not isinstance(b, np.ndarray) else ["arr", self._idx(A, b)]
+            if ret is not None and ret[1] < 0 and self.subclass_seen:
+                # NumPy wraps results computed from ndarray subclasses as views of a hidden temporary (`__array_wrap__`);
+                # `.base` navigation to such temporaries is outside the model (design.d/C07.md, round 2)
+                ret = None
         elif k == "setFlag":
             a = self._get(A, op["a"])
             if op["b"] and self._is_field_buf(a):
@@ -329,6 +371,17 @@ class Real:
             raise BadHandle()
         return ret
 
+    def tracked(self, i):
+        """the model knows class and `.base` of ndarray object i: exact ndarrays whose base (if any) is a registered handle.
+        Results NumPy derives from subclass objects (empty memmap slices, `__array_wrap__` outputs) hang on hidden temporaries."""
+        a = self.arrs[i]
+        if not _plain(a):
+            return False
+        if not self.subclass_seen:
+            return True
+        b = a.base
+        return b is None or (isinstance(b, np.ndarray) and self._idx(self.arrs, b) >= 0)
+
     def snapshot(self):
         return dict(fields=[_ints(f.raw) for f in self.fields],
                     arrs=[_ints(a) for a in self.arrs],
@@ -350,7 +403,10 @@ class Real:
             out, ret = type(e).__name__, None
             del self.arrs[na:], self.wraps[nw:], self.fields[nf:], self.ops[no:]
             del self.birth[nf:], self.created_by[nf:], self.opbirth[no:]
-        rec = dict(out=out, ret=ret, guards_held=bool(self.guard_ok))
+        rexact = None      # class tag of the returned array, for the operations that create or pass on source arrays
+        if ret is not None and ret[0] == "arr" and ret[1] >= 0 and op["op"] in ("newArr", "sliceArr", "asArray"):
+            rexact = bool(_plain(self.arrs[ret[1]]))
+        rec = dict(out=out, ret=ret, rexact=rexact, guards_held=bool(self.guard_ok))
         try:
             rec.update(self.snapshot())
         except Exception as e:
@@ -459,8 +515,12 @@ def gen_history(rng, length, p_unguarded=0.12):
         A, W, F, O = R.arrs, R.wraps, R.fields, R.ops
         choices = [("newArr", 3)]
         if A:
-            choices += [("writeArr", 4), ("setFlag", 1), ("arrBase", 2)]
-        if any(a.ndim == 1 for a in A):
+            choices += [("writeArr", 4), ("setFlag", 1)]
+        if any(R.tracked(i) for i in range(len(A))):
+            choices += [("arrBase", 2)]
+        if A:
+            choices += [("asArray", 2 if R.subclass_seen else 1)]
+        if any(a.ndim == 1 and R.tracked(i) for i, a in enumerate(A)):
             choices += [("sliceArr", 2)]
         if A:
             choices += [("wrap", 3), ("fieldFromArr", 4)]
@@ -497,8 +557,10 @@ def gen_history(rng, length, p_unguarded=0.12):
         F1 = [i for i, f in enumerate(F) if len(f.shape) == 1]
 
         # handles that alias a field are preferred targets for writes: that is where the property lives
-        def pick_arr(any_dim=False):
-            idx = [i for i, a in enumerate(A) if any_dim or a.ndim == 1]
+        def pick_arr(any_dim=False, plain=False):
+            idx = [i for i, a in enumerate(A) if (any_dim or a.ndim == 1) and (not plain or R.tracked(i))]
+            if not idx:
+                idx = [i for i, a in enumerate(A) if any_dim or a.ndim == 1]
             hot = [i for i in idx if R._is_field_buf(A[i])]
             return rng.choice(hot) if hot and rng.random() < 0.6 else rng.choice(idx)
 
@@ -508,9 +570,11 @@ def gen_history(rng, length, p_unguarded=0.12):
 
         if k == "newArr":
             op["vals"] = [ri(-9, 10) for _ in range(rng.choice([1, 1, 2, 3, 3, 4]))]
-            op["how"] = ri(2)           # how=1 with a single value: a 0-d ndarray
+            # 1 (single value): 0-d ndarray; 2: user subclass.  np.memmap sources (how=3) are exercised by the constructor x
+            # attack matrix only: memmap slices that share no memory (empty ones) silently change class, outside the model
+            op["how"] = rng.choice([0, 0, 1, 2, 2])
         elif k == "sliceArr":
-            a = pick_arr()
+            a = pick_arr(plain=True)       # `.base` of views of ndarray subclasses is not collapsed by NumPy: outside the model
             n = lenA(a)
             if rng.random() < 0.5:
                 op.update(a=a, lo=0, hi=n, how=ri(4))
@@ -518,7 +582,13 @@ def gen_history(rng, length, p_unguarded=0.12):
                 lo = ri(n + 1)
                 op.update(a=a, lo=lo, hi=ri(lo, n + 2))
         elif k == "arrBase":
-            op.update(a=pick_arr(True))
+            op.update(a=pick_arr(True, plain=True))
+        elif k == "asArray":
+            # exact ndarrays and the subclass SOURCES (results NumPy computes from subclass values carry classes the model
+            # does not track)
+            cand = [i for i, a in enumerate(A) if R.tracked(i) or i in R.sub_sources]
+            subs = [i for i in cand if i in R.sub_sources]
+            op.update(a=rng.choice(subs) if subs and rng.random() < 0.7 else rng.choice(cand) if cand else 0)
         elif k == "writeArr":
             a = pick_arr(True)
             n = lenA(a) if A[a].ndim else 1
@@ -528,8 +598,8 @@ def gen_history(rng, length, p_unguarded=0.12):
             b = rng.random() < 0.4
             if b and not unguarded and R._is_field_buf(A[a]):
                 b = False
-            if b and A[a].ndim == 0:
-                b = False     # the single memory cell behind a broadcast is not re-enabled: outside the model
+            if b and (A[a].ndim == 0 or not R.tracked(a)):
+                b = False     # 0-d cells behind broadcasts and subclass views are not re-enabled: outside the model
             if b and A[a].ndim and A[a].strides[0] == 0:
                 b = False     # stride-0 broadcast results (one memory cell behind n entries) are not re-enabled: outside the model
             op.update(a=a, b=b)
@@ -617,6 +687,19 @@ def attack_matrix():
     for how in range(3):
         ctors.append(("fromWrap%d" % how, [{"op": "newArr", "vals": [0, 1, 2, 3]}, {"op": "wrap", "a": 0},
                                            {"op": "fieldFromWrap", "w": 0, "n": 4, "how": how}]))
+    for kind in (2, 3):
+        for how in range(7):
+            ctors.append(("sub%d_%d" % (kind, how), [{"op": "newArr", "vals": [0, 1, 2, 3], "how": kind},
+                                                      {"op": "fieldFromArr", "a": 0, "n": 4, "how": how}]))
+        for how in range(3):
+            ctors.append(("subwrap%d_%d" % (kind, how), [{"op": "newArr", "vals": [0, 1, 2, 3], "how": kind}, {"op": "wrap", "a": 0},
+                                                          {"op": "fieldFromWrap", "w": 0, "n": 4, "how": how}]))
+    for kind in (0, 2, 3):
+        for how in range(7):
+            # np.asarray(source) handed to the constructor: for subclass sources another object (unguarded, the field follows
+            # the source), for exact ndarrays the same object
+            ctors.append(("asarr%d_%d" % (kind, how), [{"op": "newArr", "vals": [0, 1, 2, 3], "how": kind}, {"op": "asArray", "a": 0},
+                                                        {"op": "fieldFromArr", "a": 1 if kind else 0, "n": 4, "how": how}]))
     for how in (0, 1, 2, 3, 5, 6):
         # 0-d ndarray / 0-d AnyArray sources on the scalar domain, through every constructor
         ctors.append(("zeroD%d" % how, [{"op": "newArr", "vals": [3], "how": 1}, {"op": "fieldFromArr", "a": 0, "n": 1, "how": how}]))
@@ -660,6 +743,10 @@ def attack_matrix():
         for a in srcs:
             attacks.append([{"op": "writeArr", "a": a, "i": 0, "v": 99}])
         attacks.append([{"op": "fieldRaw", "f": f}] + ([{"op": "writeArr", "a": fa, "i": 1, "v": 98}] if fa >= 0 else []))
+        for a in srcs:
+            if R.tracked(a) or a in R.sub_sources:
+                # np.asarray of every alias after the construction, write through whatever comes back
+                attacks.append([{"op": "asArray", "a": a}] + [{"op": "writeArr", "a": b, "i": 1, "v": 82} for b in range(na + 1)])
         if fa >= 0:
             # navigate to `.base` of the raw handle and of every alias, write through whatever comes back
             attacks.append([{"op": "arrBase", "a": fa}] + [{"op": "writeArr", "a": a, "i": 0, "v": 83} for a in range(na)])
